@@ -439,7 +439,9 @@ pub fn gen_srv_case(rng: &mut Rng, profile: Profile, prop: &'static str) -> SrvC
                 SStep::Fork
             }
             12 => {
-                if rng.chance(1, 4) {
+                if rng.chance(1, 6) {
+                    SStep::Pace(*rng.pick(&[0u64, 1, 40, 300, 2_500]))
+                } else if rng.chance(1, 4) {
                     // the wall clock is stepped: back by seconds .. decades, forward past 2^31 and 2^32 seconds
                     SStep::ClockStep(*rng.pick(&[-1i64, -61, -3_600, -86_400, -1_000_000_000, 3_600, 450_000_000, 2_600_000_000]))
                 } else {
@@ -927,6 +929,10 @@ impl Prop for C10 {
         if rng.chance(1, 8_000) {
             // capacity regained again and again: hundreds to tens of thousands of short-lived clients
             return crate::flood::gen_turnstile(rng);
+        }
+        if rng.chance(1, 6_000) {
+            // a full server and hundreds to tens of thousands of surplus clients
+            return crate::flood::gen_storm(rng);
         }
         gen_srv_case(rng, Profile::Capacity, "C10").to_json()
     }
